@@ -29,14 +29,15 @@ META = {
                                      "hash160/sha256/x-only contents of the standard scriptPubKeys, 1..3-byte push contents of the other scripts; "
                                      "script-code kinds p2pkh, p2sh(multisig-shaped redeem script), p2wpkh, p2sh-p2wpkh, p2wsh, p2sh-p2wsh; taproot "
                                      "witness shapes [], [sig], [sig,annex], [arg,script,cb], [arg,script,cb,annex], [script,cb], [script,cb,annex] "
-                                     "with symbolic item contents; legacy and BIP143 additionally with a symbolic hash-type byte constrained to "
-                                     "the six standard values on the 2x2 shape",
+                                     "with symbolic item contents; the signed input index and the hash type are solver-chosen from their explicit "
+                                     "sets (one path each); legacy and BIP143 additionally with a hash-type byte that stays symbolic (constrained to "
+                                     "the six standard values) through the library's and the oracle's branches on the 2x2 shape",
                   "dispatch (O4)": "same shapes, kinds, witness shapes and hash types",
                   "history (O5)": "inductive step: memo groups {BIP143 inputs, BIP143 outputs, BIP341 inputs, BIP341 outputs} each unset or "
                                   "computed for an arbitrary earlier content A (2 in, 2 out, symbolic), then (a) one of 15 attribute-level edits "
                                   "with symbolic new values or (b) replacement of inputs, outputs, version and locktime by an arbitrary content "
-                                  "B with n_in in 1..3, n_out in 0..3; then every (input index, hash type) query; 8 fixed query/edit sequences "
-                                  "of up to 8 steps with symbolic values"},
+                                  "B with n_in in 1..3, n_out in 0..3; then every (input index, hash type) query; 14 fixed query/edit sequences "
+                                  "of up to 11 steps with symbolic values (single algorithm and three algorithms interleaved)"},
         "thorough": {"digests (O1-O3)": "n_in in 1..6 x n_out in 0..6, otherwise as quick",
                      "dispatch (O4)": "n_in in 1..4 x n_out in 0..4",
                      "history (O5)": "earlier content A in {(1,0),(2,2),(3,3)}, B with n_in in 1..4, n_out in 0..4"}},
@@ -54,6 +55,11 @@ META = {
     "stubs": ["sha256 (hence hash256 and tagged hashes) as an uninterpreted function on symbolic input, same symbol in code and oracle",
               "the x-only internal key inside control blocks is the concrete generator point (it does not enter the digest)"],
     "assumptions": ["digest equality is decided on the preimages and the UF outputs; a replay recomputes both sides with real SHA-256",
+                    "O5: a memo group (BIP143 inputs / outputs, BIP341 inputs / outputs) is either unset or holds the value of one earlier content; "
+                    "the groups depend on disjoint parts of that content, so one arbitrary A covers states whose groups stem from different "
+                    "earlier contents; a query reads only the groups of its own algorithm",
+                    "memo_used_stale in history witnesses is a triage label computed by a small model of which midstates a hash type reads; "
+                    "it never enters a verdict",
                     "O4 + (O1..O3) compose: O4 shows the dispatcher calls the algorithm function the BIPs select with the selected arguments"],
 }
 
@@ -527,17 +533,29 @@ def _outval(r):
     return r[1] if r[0] == "ok" else "exc:" + r[1]
 
 
+def _pick(name, values):
+    """an element of a small explicit set, chosen by the solver: the exploration forks into one path per value (the
+    signed input index and the hash type are selected this way, so one exploration covers all of them)"""
+    values = list(values)
+    v = SI.var(name, min(values), max(values))
+    assume(core.s_or(*[v == x for x in values]))
+    return core.concretize(v)
+
+
 # ---------------------------------------------------------------------------------------- O1..O3 digests
 
-def _direct_path(kind, n_in, n_out, idx, ht, tvar, holder):
+def _direct_path(kind, n_in, n_out, hts, tvar, holder):
     M = mods(True)
-    g = holder["g"] = Gen()
+    g = holder.setdefault("g", Gen())  # one registry for all paths (the variables differ with the signed input)
     alg = ALG_OF_KIND[kind]
-    c = holder["c"] = mk_content(g, "", n_in, n_out, {idx: kind}, tvar)
-    sym_ht = ht == "sym"
+    idx = _pick("input_index", range(n_in))
+    sym_ht = hts == "sym"
     if sym_ht:
-        ht = g.si("ht", 0, 255)
+        ht = SI.var("hash_type", 0, 255)  # stays symbolic: the library and the oracle branch on it
         assume(core.s_or(*[ht == v for v in HT_STD]))
+    else:
+        ht = _pick("hash_type", hts)
+    c = holder[idx] = mk_content(g, "", n_in, n_out, {idx: kind}, tvar)
     ext = _ext_of(tvar) if alg == "bip341" else None
     meta = {"algorithm": alg, "kind": kind, "n_in": n_in, "n_out": n_out, "input_index": idx,
             "path": ("script" if ext else "key") if alg == "bip341" else None, "ext_flag": ext,
@@ -548,6 +566,7 @@ def _direct_path(kind, n_in, n_out, idx, ht, tvar, holder):
         if alg == "bip341":
             items = conc_value(c["ins"][idx]["wit"], env)
             w["n_witness"] = len(items)
+            w["witness_first_bytes"] = [it[0] if len(it) else None for it in items]
             w["annex"] = split_annex(items)[0] is not None
         return w
     tx = build(M, c)
@@ -555,61 +574,60 @@ def _direct_path(kind, n_in, n_out, idx, ht, tvar, holder):
     r = _try(lambda: call_direct(M, tx, c, idx, ht, ext))
     pre_code = _REC[-1][1] if _REC else None
     st, pre, dig = spec_direct(c, idx, ht, ext)
-    hts = "symbolic" if sym_ht else f"{ht:#04x}"
+    hl = ("symbolic" if sym_ht else f"{ht:#04x}") + f" [{n_in} in, {n_out} out, index {idx}" + (f", witness {tvar}]" if alg == "bip341" else "]")
     if st == "invalid":
-        check(r[0] == "exc", f"{alg}/{kind} hash_type={hts}: BIP341 defines no digest here (signature invalid) but one was returned", witness=wit)
+        check(r[0] == "exc", f"{alg}/{kind} hash_type={hl}: BIP341 defines no digest here (signature invalid) but one was returned", witness=wit)
         return Out("invalid", _outval(r))
     if r[0] == "exc":
-        check(False, f"{alg}/{kind} hash_type={hts}: raised {r[1]} where the specification defines a digest", witness=wit)
+        check(False, f"{alg}/{kind} hash_type={hl}: raised {r[1]} where the specification defines a digest", witness=wit)
         return Out("exc", _outval(r))
     got = r[1]
     if st == "one":
-        check(got == ONE_INT, f"{alg}/{kind} hash_type={hts}: SIGHASH_SINGLE without matching output must give uint256(1)", witness=wit)
+        check(got == ONE_INT, f"{alg}/{kind} hash_type={hl}: SIGHASH_SINGLE without matching output must give uint256(1)", witness=wit)
         return Out("one", got)
     same_pre = pre_code is not None and len(pre_code) == len(pre) and (pre_code == pre)
     check(s_and(same_pre, _same(("ok", got), ("ok", dig))),
-          f"{alg}/{kind} hash_type={hts}: preimage / digest differs from the specification", witness=wit)
+          f"{alg}/{kind} hash_type={hl}: preimage / digest differs from the specification", witness=wit)
     return Out("digest", got)
 
 
-def _run_direct(kind, n_in, n_out, idx, ht, tvar="sign", n_val=1):
-    """one (shape, signed input, hash type, kind) instance; the symbolic digest is also validated against the native
-    library on n_val random concrete environments (encoding self-validation)"""
+def _run_direct(kind, n_in, n_out, hts, tvar="sign", n_val=4):
+    """one (shape, script kind, witness shape) instance covering every signed input and every hash type of hts; the
+    symbolic digests are also validated against the native library on n_val random concrete environments"""
     holder = {}
     alg = ALG_OF_KIND[kind]
     ext = _ext_of(tvar) if alg == "bip341" else None
 
     def gen_env(rng):
         env = holder["g"].env(rng)
-        if ht == "sym":
-            env["ht"] = rng.choice(HT_STD)
+        for k in env:
+            if k.endswith(".cbv[0]") and env[k] == 0x50:  # stay inside the harness assumption on control blocks
+                env[k] = 0xC0
+        env["input_index"] = rng.randrange(n_in)
+        env["hash_type"] = rng.choice(HT_STD if hts == "sym" else hts)
         return env
 
     def native(env):
         M = mods(False)
-        c = conc_value(holder["c"], env)
-        h = env["ht"] if ht == "sym" else ht
-        return _outval(_try(lambda: call_direct(M, build(M, c), c, idx, h, ext)))
-    return sym_run(lambda: _direct_path(kind, n_in, n_out, idx, ht, tvar, holder), timeout_ms=60000, gen_env=gen_env, native=native,
-                   n_val=n_val)
+        idx = env["input_index"]
+        c = conc_value(holder[idx], env)
+        return _outval(_try(lambda: call_direct(M, build(M, c), c, idx, env["hash_type"], ext)))
+    return sym_run(lambda: _direct_path(kind, n_in, n_out, hts, tvar, holder), timeout_ms=60000, gen_env=gen_env, native=native, n_val=n_val)
 
 
 LEGACY_KINDS = ("p2pkh", "p2sh")
 BIP143_KINDS = ("p2wpkh", "p2sh-p2wpkh", "p2wsh", "p2sh-p2wsh")
 
 
-def ob_legacy(n_in, n_out):
+def ob_legacy(n_in, n_outs):
     runs = []
-    for idx in range(n_in):
-        for kind in LEGACY_KINDS:
-            for ht in HT_STD:
-                runs.append(_run_direct(kind, n_in, n_out, idx, ht))
-    runs.append(sym_run(lambda: _legacy_range_path(n_in, n_out)))
-    if (n_in, n_out) == (2, 2):
-        for idx in range(n_in):
-            runs.append(_run_direct("p2pkh", n_in, n_out, idx, "sym", n_val=4))
+    for n_out in n_outs:
+        runs += [_run_direct(kind, n_in, n_out, HT_STD) for kind in LEGACY_KINDS]
+        runs.append(sym_run(lambda: _legacy_range_path(n_in, n_out)))
+        if (n_in, n_out) == (2, 2):
+            runs.append(_run_direct("p2pkh", n_in, n_out, "sym"))
     m = merge_runs(runs)
-    m["sample"] = {"tx": f"{n_in} inputs, {n_out} outputs, all fields symbolic", "signed input": "each", "script code": list(LEGACY_KINDS),
+    m["sample"] = {"tx": f"{n_in} inputs, {list(n_outs)} outputs, all fields symbolic", "signed input": "each", "script code": list(LEGACY_KINDS),
                    "hash types": [hex(h) for h in HT_STD]}
     return m
 
@@ -627,29 +645,22 @@ def _legacy_range_path(n_in, n_out):
     return "range"
 
 
-def ob_bip143(n_in, n_out):
+def ob_bip143(n_in, n_outs):
     runs = []
-    for idx in range(n_in):
-        for kind in BIP143_KINDS:
-            for ht in HT_STD:
-                runs.append(_run_direct(kind, n_in, n_out, idx, ht))
-    if (n_in, n_out) == (2, 2):
-        for idx in range(n_in):
-            runs.append(_run_direct("p2wpkh", n_in, n_out, idx, "sym", n_val=4))
+    for n_out in n_outs:
+        runs += [_run_direct(kind, n_in, n_out, HT_STD) for kind in BIP143_KINDS]
+        if (n_in, n_out) == (2, 2):
+            runs.append(_run_direct("p2wpkh", n_in, n_out, "sym"))
     m = merge_runs(runs)
-    m["sample"] = {"tx": f"{n_in} inputs, {n_out} outputs, all fields symbolic", "signed input": "each", "script code": list(BIP143_KINDS),
+    m["sample"] = {"tx": f"{n_in} inputs, {list(n_outs)} outputs, all fields symbolic", "signed input": "each", "script code": list(BIP143_KINDS),
                    "hash types": [hex(h) for h in HT_STD]}
     return m
 
 
-def ob_bip341(n_in, n_out):
-    runs = []
-    for idx in range(n_in):
-        for tvar in TVARS:
-            for ht in HT_TAP:
-                runs.append(_run_direct("p2tr", n_in, n_out, idx, ht, tvar))
+def ob_bip341(n_in, n_outs):
+    runs = [_run_direct("p2tr", n_in, n_out, HT_TAP, tvar) for n_out in n_outs for tvar in TVARS]
     m = merge_runs(runs)
-    m["sample"] = {"tx": f"{n_in} inputs, {n_out} outputs, all fields symbolic", "signed input": "each", "witness shapes": list(TVARS),
+    m["sample"] = {"tx": f"{n_in} inputs, {list(n_outs)} outputs, all fields symbolic", "signed input": "each", "witness shapes": list(TVARS),
                    "hash types": [hex(h) for h in HT_TAP]}
     return m
 
@@ -693,9 +704,11 @@ def replay_direct(w):
 
 # ---------------------------------------------------------------------------------------- O4 dispatch
 
-def _dispatch_path(kind, n_in, n_out, idx, ht, tvar):
+def _dispatch_path(kind, n_in, n_out, tvar):
     M = mods(True)
     g = Gen()
+    idx = _pick("input_index", range(n_in))
+    ht = _pick("hash_type", HT_TAP if kind == "p2tr" else HT_STD)
     c = mk_content(g, "", n_in, n_out, {idx: kind}, tvar)
     sel = spec_select(c, idx)
 
@@ -704,29 +717,28 @@ def _dispatch_path(kind, n_in, n_out, idx, ht, tvar):
         return {"algorithm": "dispatch", "selected": sel["alg"], "kind": kind, "n_in": n_in, "n_out": n_out, "input_index": idx, "hash_type": ht,
                 "path": ("script" if sel.get("ext_flag") else "key") if sel["alg"] == "bip341" else None,
                 "annex": (split_annex(items)[0] is not None) if sel["alg"] == "bip341" else None,
-                "witness_shape": tvar if kind == "p2tr" else None, "n_witness": len(items), "content": _js(conc_value(c, env))}
+                "witness_shape": tvar if kind == "p2tr" else None, "n_witness": len(items),
+                "witness_first_bytes": [it[0] if len(it) else None for it in items], "content": _js(conc_value(c, env))}
     tx, fresh = build(M, c), build(M, c)
     r = _try(lambda: tx.sig_hash(idx, ht))
     f = _try(lambda: call_selected(M, fresh, c, idx, ht, sel))
     check(_same(r, f), f"dispatch/{kind}{'/' + tvar if kind == 'p2tr' else ''}: Tx.sig_hash differs from the {sel['alg']} function called with the "
-                        f"arguments the BIPs select", witness=wit)
+                        f"arguments the BIPs select (hash_type={ht:#04x}) [{n_in} in, {n_out} out, index {idx}]", witness=wit)
     return (sel["alg"], sel.get("ext_flag"))
 
 
-def ob_dispatch(n_in, n_out):
+def ob_dispatch(n_in, n_outs):
     runs = []
-    for idx in range(n_in):
+    for n_out in n_outs:
         for kind in LEGACY_KINDS + BIP143_KINDS:
-            for ht in HT_STD:
-                runs.append(sym_run(lambda: _dispatch_path(kind, n_in, n_out, idx, ht, "sign"), timeout_ms=60000))
+            runs.append(sym_run(lambda: _dispatch_path(kind, n_in, n_out, "sign"), timeout_ms=60000))
         for tvar in TVARS:
-            for ht in HT_TAP:
-                runs.append(sym_run(lambda: _dispatch_path("p2tr", n_in, n_out, idx, ht, tvar), timeout_ms=60000))
+            runs.append(sym_run(lambda: _dispatch_path("p2tr", n_in, n_out, tvar), timeout_ms=60000))
     m = merge_runs(runs)
     for cls in ("('legacy', None)", "('bip143', None)", "('bip341', 0)", "('bip341', 1)"):
         if cls not in m["classes"]:
             m["inconclusive"].append(f"reachability twin: selection {cls} never exercised")
-    m["sample"] = {"tx": f"{n_in} inputs, {n_out} outputs", "spent output kinds": list(LEGACY_KINDS + BIP143_KINDS) + ["p2tr"],
+    m["sample"] = {"tx": f"{n_in} inputs, {list(n_outs)} outputs", "spent output kinds": list(LEGACY_KINDS + BIP143_KINDS) + ["p2tr"],
                    "taproot witness shapes": list(TVARS)}
     return m
 
@@ -928,13 +940,18 @@ def stale_sim(c0, steps):
     return out
 
 
-def _history_path(alg, shape_a, steps_fn, meta):
-    """steps_fn(g, c0) -> steps with symbolic arguments"""
+def _history_path(alg, shape_a, steps_fn, meta, pick=None):
+    """steps_fn(g, c0, idx, ht) -> steps with symbolic arguments; pick = (number of inputs at the final query, hash types)
+    lets the solver choose the final query"""
     M = mods(True)
     g = Gen()
+    idx = ht = None
+    if pick:
+        idx = _pick("input_index", range(pick[0]))
+        ht = _pick("hash_type", pick[1])
     kinds = meta.get("kinds") or H_KIND[alg]
     c0 = mk_content(g, "A.", shape_a[0], shape_a[1], kinds)
-    steps = steps_fn(g, c0)
+    steps = steps_fn(g, c0, idx, ht)
     stale = stale_sim(c0, [s + [alg] if s[0] == "query" else s for s in steps])
     edits = [s[1] for s in steps if s[0] == "edit"]
     fills = [s[1] for s in steps if s[0] == "fill"]
@@ -951,34 +968,54 @@ def _history_path(alg, shape_a, steps_fn, meta):
                     "queries_before": sum(1 for s in steps[:si] if s[0] == "query"),
                     "content": _js(conc_value(c0, env)), "steps": _js(conc_value(steps, env))}
         check(_same(r, f), f"history/{qalg}: digest after {' '.join(str(s[1]) for s in steps[:si] if s[0] != 'query') or 'queries'} "
-                           f"differs from a fresh object (hash_type={ht:#04x})", witness=wit)
+                           f"differs from a fresh object (hash_type={ht:#04x}) [step {si}, {len(c['ins'])} in, {len(c['outs'])} out, index {idx}]",
+              witness=wit)
         classes.append(r[0])
     run_history(M, c0, steps, on_query)
     return tuple(classes)
 
 
-def ob_history_step(alg, edit, shape_a=(2, 2), shapes_b=((2, 2),)):
-    """one inductive step: memo groups filled for content A, one edit, one query"""
+def _edit_ok(alg, edit, sa):
+    if edit == "witness" and alg != "bip341":
+        return False
+    if edit in ("out_amount", "out_script", "out_pop") and sa[1] == 0:
+        return False
+    if edit == "in_pop" and sa[0] < 2:
+        return False
+    return True
+
+
+def ob_history_step(alg, edits, shape_a=(2, 2), shapes_b=((2, 2),)):
+    """inductive steps: memo groups filled for content A, one edit, one query"""
+    runs = []
+    for edit in edits:
+        if _edit_ok(alg, edit, shape_a):
+            sb = shapes_b if edit in ("outs_replace", "ins_replace", "replace_all") else ((2, 2),)
+            runs += _history_step_runs(alg, edit, shape_a, sb)
+    m = merge_runs(runs)
+    m["sample"] = {"pre-state": f"Tx with {shape_a[0]} inputs / {shape_a[1]} outputs (symbolic content A), memo groups of {alg} each unset or "
+                                f"computed for A", "edits": list(edits), "then": "digest for every input index and hash type == fresh object"}
+    return m
+
+
+def _history_step_runs(alg, edit, shape_a, shapes_b):
     runs = []
     kind = H_KIND[alg]
-    fills = ("none",) if alg == "legacy" else ("in", "out", "both", "none")
+    # (nothing filled is the fresh object itself; it is the only memo state of the legacy algorithm)
+    fills = ("none",) if alg == "legacy" else ("in", "out", "both")
     hts = HT_TAP if alg == "bip341" else HT_STD
     for shape_b in shapes_b:
         for fill in fills:
             # shape after the edit decides the valid input indices
             n_in_after = {"in_append": shape_a[0] + 1, "in_pop": shape_a[0] - 1, "ins_replace": shape_b[0], "replace_all": shape_b[0]}.get(edit, shape_a[0])
-            for idx in range(n_in_after):
-                for ht in hts:
-                    def steps_fn(g, c0):
-                        st = [["fill", FILL_METHOD[(alg, grp)]] for grp in FILLS[fill]]
-                        st.append(["edit", edit, mk_edit_args(g, "B", edit, c0, kind, shape_b)])
-                        st.append(["query", idx, ht])
-                        return st
-                    runs.append(sym_run(lambda: _history_path(alg, shape_a, steps_fn, {"fill": fill}), timeout_ms=60000))
-    m = merge_runs(runs)
-    m["sample"] = {"pre-state": f"Tx with {shape_a[0]} inputs / {shape_a[1]} outputs (symbolic content A), memo groups of {alg} each unset or "
-                                f"computed for A", "edit": edit, "then": "digest for every input index and hash type == fresh object"}
-    return m
+
+            def steps_fn(g, c0, idx, ht):
+                st = [["fill", FILL_METHOD[(alg, grp)]] for grp in FILLS[fill]]
+                st.append(["edit", edit, mk_edit_args(g, "B", edit, c0, kind, shape_b)])
+                st.append(["query", idx, ht])
+                return st
+            runs.append(sym_run(lambda: _history_path(alg, shape_a, steps_fn, {"fill": fill}, pick=(n_in_after, hts)), timeout_ms=60000))
+    return runs
 
 
 def _seq_defs():
@@ -1003,16 +1040,14 @@ def _seq_defs():
     return out
 
 
-def ob_history_sequences(which):
+def ob_history_sequences():
     runs = []
     names = []
     for (name, kinds, n_in, n_out, fn) in _seq_defs():
-        if not name.startswith(which):
-            continue
         names.append(name)
         alg = name.split(":")[0]
-        runs.append(sym_run(lambda: _history_path(alg if alg != "mixed" else "bip143", (n_in, n_out), fn, {"kinds": kinds, "fill": None}),
-                            timeout_ms=60000))
+        runs.append(sym_run(lambda: _history_path(alg if alg != "mixed" else "bip143", (n_in, n_out), lambda g, c, i, h: fn(g, c),
+                                                  {"kinds": kinds, "fill": None}), timeout_ms=60000))
     m = merge_runs(runs)
     m["sample"] = {"histories": names}
     return m
@@ -1037,38 +1072,36 @@ def replay_history(w):
 # ---------------------------------------------------------------------------------------- registry
 
 def obligations(tier):
+    """few, large obligations: every worker process pays a start-up cost that exceeds the solver work of a small one"""
     q = tier == "quick"
     ins = range(1, 4) if q else range(1, 7)
-    outs = range(0, 4) if q else range(0, 7)
+    outs = tuple(range(0, 4) if q else range(0, 7))
     obs = []
     for n_in in ins:
-        for n_out in outs:
-            obs.append(Ob("O1-legacy", ob_legacy, {"n_in": n_in, "n_out": n_out}, replay="direct", budget_s=1500))
-            obs.append(Ob("O2-bip143", ob_bip143, {"n_in": n_in, "n_out": n_out}, replay="direct", budget_s=1500))
-            obs.append(Ob("O3-bip341", ob_bip341, {"n_in": n_in, "n_out": n_out}, replay="direct", budget_s=1500))
+        obs.append(Ob("O1-legacy", ob_legacy, {"n_in": n_in, "n_outs": outs}, replay="direct", budget_s=1500))
+        obs.append(Ob("O2-bip143", ob_bip143, {"n_in": n_in, "n_outs": outs}, replay="direct", budget_s=1500))
+        for part in ((outs[:2], outs[2:]) if q else tuple((o,) for o in outs)):
+            obs.append(Ob("O3-bip341", ob_bip341, {"n_in": n_in, "n_outs": part}, replay="direct", budget_s=1500))
     for n_in in (ins if q else range(1, 5)):
-        for n_out in (outs if q else range(0, 5)):
-            obs.append(Ob("O4-dispatch", ob_dispatch, {"n_in": n_in, "n_out": n_out}, replay="dispatch", budget_s=1500))
+        for part in ((outs[:2], outs[2:]) if q else ((0, 1), (2, 3), (4,))):
+            obs.append(Ob("O4-dispatch", ob_dispatch, {"n_in": n_in, "n_outs": part}, replay="dispatch", budget_s=1500))
     shapes_a = ((2, 2),) if q else ((1, 0), (2, 2), (3, 3))
     b_in = range(1, 4) if q else range(1, 5)
     b_out = range(0, 4) if q else range(0, 5)
-    for alg in ("legacy", "bip143", "bip341"):
-        for sa in shapes_a:
-            for edit in EDITS:
-                if edit == "witness" and alg != "bip341":
-                    continue
-                if edit in ("out_amount", "out_script", "out_pop") and sa[1] == 0:
-                    continue
-                if edit == "in_pop" and sa[0] < 2:
-                    continue
-                if edit in ("outs_replace", "ins_replace", "replace_all"):
-                    for bi in (b_in if edit != "outs_replace" else (sa[0],)):
-                        sb = tuple((bi, bo) for bo in (b_out if edit != "ins_replace" else (sa[1],)))
-                        obs.append(Ob("O5-history-step", ob_history_step, {"alg": alg, "edit": edit, "shape_a": sa, "shapes_b": sb},
-                                      replay="history", budget_s=1500))
-                else:
-                    obs.append(Ob("O5-history-step", ob_history_step, {"alg": alg, "edit": edit, "shape_a": sa}, replay="history",
-                                  budget_s=1500))
-    for which in ("legacy", "bip143", "bip341", "mixed"):
-        obs.append(Ob("O5-history-sequences", ob_history_sequences, {"which": which}, replay="history", budget_s=1500))
+    small = tuple(e for e in EDITS if e not in ("outs_replace", "ins_replace", "replace_all"))
+    for sa in shapes_a:
+        obs.append(Ob("O5-history-step", ob_history_step, {"alg": "legacy", "edits": small, "shape_a": sa}, replay="history", budget_s=1500))
+        obs.append(Ob("O5-history-step", ob_history_step, {"alg": "legacy", "edits": ("outs_replace", "ins_replace", "replace_all"), "shape_a": sa,
+                                                            "shapes_b": tuple((bi, bo) for bi in b_in for bo in b_out)}, replay="history", budget_s=1500))
+        for alg in ("bip143", "bip341"):
+            for grp in (EDITS_OUT[:4], EDITS_IN[:5], EDITS_OTHER[:3]):
+                obs.append(Ob("O5-history-step", ob_history_step, {"alg": alg, "edits": grp, "shape_a": sa}, replay="history", budget_s=1500))
+            obs.append(Ob("O5-history-step", ob_history_step, {"alg": alg, "edits": ("outs_replace",), "shape_a": sa,
+                                                                "shapes_b": tuple((sa[0], bo) for bo in b_out)}, replay="history", budget_s=1500))
+            obs.append(Ob("O5-history-step", ob_history_step, {"alg": alg, "edits": ("ins_replace",), "shape_a": sa,
+                                                                "shapes_b": tuple((bi, sa[1]) for bi in b_in)}, replay="history", budget_s=1500))
+            for bi in b_in:
+                obs.append(Ob("O5-history-step", ob_history_step, {"alg": alg, "edits": ("replace_all",), "shape_a": sa,
+                                                                    "shapes_b": tuple((bi, bo) for bo in b_out)}, replay="history", budget_s=1500))
+    obs.append(Ob("O5-history-sequences", ob_history_sequences, replay="history", budget_s=1500))
     return obs
